@@ -27,7 +27,7 @@ CASES = [
     ("addcmul", lambda a, b: torch.addcmul(a, a, b, value=0.5) + a.clone().addcmul_(b, b)), ("addcdiv", lambda a, b: torch.addcdiv(a, b, a * a + 1)),
     ("add", lambda a, b: a + b), ("sub", lambda a, b: a - b), ("mul", lambda a, b: a * b), ("div", lambda a, b: a / (b * b + 1)),
     ("matmul", lambda a, b: a @ b.t()), ("cumsum", lambda a, b: torch.cumsum(a, -1)), ("sum", lambda a, b: a.sum(-1)),
-    ("sumall", lambda a, b: torch.sum(a, dim=[0, 1])), ("cat", lambda a, b: torch.cat([a, b], 1)), ("stack", lambda a, b: torch.stack([a, b], 0)),
+    ("sumall", lambda a, b: torch.sum(a, dim=[0, 1])), ("sum_emptydims", lambda a, b: torch.sum(a, dim=[]) + torch.sum(b, dim=())), ("cat", lambda a, b: torch.cat([a, b], 1)), ("stack", lambda a, b: torch.stack([a, b], 0)),
     ("permute", lambda a, b: a.reshape(2, 3, 2).permute(2, 0, 1).reshape(4, 3)), ("pad", lambda a, b: torch.nn.functional.pad(a, (1, 2), value=0.5)),
     ("gather", lambda a, b: a.gather(1, torch.tensor([[0, 2], [1, 1], [3, 0]]))), ("index", lambda a, b: a[:, [2, 0]]),
     ("slice", lambda a, b: a[..., 1:] - a[..., :-1]), ("clamp", lambda a, b: torch.clamp(a, -0.5, 0.5)), ("abs", lambda a, b: torch.abs(a) * torch.sign(b)),
